@@ -28,10 +28,116 @@ let parse_scen input =
       end) h.extras;
   { h; conc = Stdlib.List.rev !conc; trace = !trace }
 
+
+(* ---------- "free" cases: free-running readers checked for linearizability against the model ---------- *)
+type read = { kind : string; kb : int; ka : int; ans : string }
+
+let parse_reads h =
+  Stdlib.List.concat_map (fun x ->
+      if starts "reads:" x then
+        Stdlib.List.filter_map (fun t ->
+            if t = "" then None else
+              match split_on '.' t with
+              | [k; kb; ka; ans] -> Some { kind = k; kb = int_of_string kb; ka = int_of_string ka; ans }
+              | _ -> failwith ("bad read " ^ t)) (split_on '/' (after "reads:" x))
+      else []) h.extras
+
+let is_free h = Stdlib.List.mem "free" h.extras
+
+(* stores after k = 0..n submissions, and the main-chain height / sub at each *)
+let prefixes h =
+  let n = Stdlib.List.length h.subs in
+  let arr = Stdlib.Array.make (n + 1) (Chain.init h.gid h.gpl) in
+  Stdlib.List.iteri (fun i sub -> arr.(i + 1) <- fst (Chain.add h.forbidden arr.(i) sub)) h.subs;
+  arr
+
+let main_heights h =
+  let n = Stdlib.List.length h.subs in
+  let mh = Stdlib.Array.make (n + 1) 0 in
+  let at = Stdlib.Hashtbl.create 64 in
+  Stdlib.List.iteri (fun i sub ->
+      let is_main = Z.lt (zt_of_n sub.Store.s_id) (Z.of_int 10000) in
+      mh.(i + 1) <- mh.(i) + (if is_main then 1 else 0);
+      if is_main then Stdlib.Hashtbl.replace at mh.(i + 1) sub) h.subs;
+  (mh, at)
+
+let model_answer h (mh, at) (stores : Store.store array) (r : read) (k : int) : string =
+  let s = stores.(k) in
+  match r.kind with
+  | "t" -> tip_string s
+  | "v" ->
+    let items = Stdlib.List.filter_map (fun d ->
+        match Stdlib.Hashtbl.find_opt at (mh.(r.kb) + d) with
+        | Some sub -> Some (sub.Store.s_pl.Store.p_merkle, z_of_int (mh.(r.kb) + d))
+        | None -> None) [0; 1; 2] in
+    (match Merkle.verify s (z_of_int 6) items with
+     | Merkle.VOk (_, l) -> Stdlib.String.concat "" (Stdlib.List.map (fun ((_, _), c) ->
+         match c with Merkle.Confirmed _ -> "C" | Merkle.UnableToVerify -> "U" | Merkle.Invalid -> "I") l)
+     | _ -> "E400")
+  | "h" ->
+    let rows = Query.by_height_range s (z_of_int mh.(r.kb)) (Some (z_of_int 3)) in
+    let ids = Stdlib.List.sort Z.compare (Stdlib.List.map (fun x -> zt_of_n x.Store.id) rows) in
+    "L" ^ Stdlib.String.concat "+" (Stdlib.List.map Z.to_string ids)
+  | _ -> "?"
+
+let allowed h mhat stores r =
+  let n = Stdlib.Array.length stores - 1 in
+  let lo = max 0 (min r.kb n) and hi = max 0 (min r.ka n) in
+  let rec go k acc = if k > hi then Stdlib.List.rev acc else
+      let a = model_answer h mhat stores r k in go (k + 1) (if Stdlib.List.mem a acc then acc else a :: acc) in
+  go lo []
+
+(* tip and byHeight are one query each: the whole answer must be the model's answer on ONE store of the window.
+   A verification request looks its items up one after the other (the property promises a verdict per item, not a
+   snapshot across items): each item's verdict must be the model's verdict on SOME store of the window. *)
+let answer_ok h mhat stores r (a : string) =
+  let al = allowed h mhat stores r in
+  if r.kind <> "v" then Stdlib.List.mem a al
+  else
+    Stdlib.List.exists (fun x -> Stdlib.String.length x = Stdlib.String.length a) al &&
+    (let ok = ref true in
+     Stdlib.String.iteri (fun i ch ->
+         if not (Stdlib.List.exists (fun x -> Stdlib.String.length x > i && x.[i] = ch) al) then ok := false) a;
+     !ok)
+
+let free_model input =
+  let h = parse_history input in
+  let stores = prefixes h and mhat = main_heights h in
+  let reads = parse_reads h in
+  let final = stores.(Stdlib.Array.length stores - 1) in
+  (* a read whose recorded answer is one of the allowed ones is echoed; otherwise the allowed set is printed *)
+  let outs = Stdlib.List.map (fun r ->
+      if answer_ok h mhat stores r r.ans then r.ans else "{" ^ Stdlib.String.concat "," (allowed h mhat stores r) ^ "}") reads in
+  rows_string final ^ "|" ^ Stdlib.String.concat "/" outs
+
+let free_spec input obs =
+  let h = parse_history input in
+  match split_on '|' obs with
+  | [rows_s; answers] ->
+    let stores = prefixes h and mhat = main_heights h in
+    let reads = parse_reads h in
+    let final = stores.(Stdlib.Array.length stores - 1) in
+    let got = if answers = "" then [] else split_on '/' answers in
+    if not (Crash.struct_validb (parse_rows rows_s)) then "FAIL two-longest-at-one-height-or-broken-chain " ^ rows_s
+    else if rows_string final <> rows_s then "FAIL not-a-sequential-outcome final table differs from the sequential ingestion of the same history"
+    else if Stdlib.List.length got <> Stdlib.List.length reads then "FAIL malformed-observable"
+    else begin
+      let bad = Stdlib.List.filter_map (fun (r, a) ->
+          let al = allowed h mhat stores r in
+          if a = r.ans && answer_ok h mhat stores r a then None
+          else Some (Printf.sprintf "%s@[%d,%d] answered %s, allowed {%s}" r.kind r.kb r.ka a (Stdlib.String.concat "," al)))
+          (Stdlib.List.combine reads got) in
+      match bad with
+      | [] -> "OK"
+      | b :: _ -> Printf.sprintf "FAIL reader-answer-not-linearizable %d of %d reads, first: %s" (Stdlib.List.length bad) (Stdlib.List.length reads) b
+    end
+  | _ -> "FAIL malformed-observable"
+
 let setup_store sc =
   Stdlib.List.fold_left (fun s sub -> fst (Chain.add sc.h.forbidden s sub)) (Chain.init sc.h.gid sc.h.gpl) sc.h.subs
 
 let model input =
+  if is_free (parse_history input) then free_model input else
   let sc = parse_scen input in
   let hdr tid = Stdlib.List.assoc_opt (int_of_nat tid) sc.conc in
   let tr = Stdlib.List.map (fun (t, k) -> (nat_of_int t, k)) sc.trace in
@@ -57,6 +163,7 @@ let rec perms = function
   | l -> Stdlib.List.concat_map (fun x -> Stdlib.List.map (fun p -> x :: p) (perms (Stdlib.List.filter (fun y -> y != x) l))) l
 
 let spec input obs =
+  if is_free (parse_history input) then free_spec input obs else
   let sc = parse_scen input in
   match split_on '|' obs with
   | [outs; tips; rows_s; evs] ->
